@@ -111,6 +111,85 @@ fn limiter_run(ch: &Ch, burst: usize, permits: &[usize], holds: &[u32], repeat: 
     ExecResult { obs: fx_hash(&format!("{lg:?}")), violation, nontrivial: true, witnesses: vec![("grants_after_waiting", grants.iter().filter(|g| g.0 > 0).count() as u64)] }
 }
 
+
+/// Extreme refresh periods (the property quantifies over every positive period): one caller asks for
+/// `per_call` permits `burst + 4` times in a row while the clock is advanced, at every quiescent point, by
+/// 1 s, 10^6 s, 10^9 s (cyclically, 12 steps).  Window bound with exact arithmetic; for periods that fit
+/// the horizon every acquire must be granted.
+fn extreme_rates() -> (u64, u64, Option<String>) {
+    let periods: Vec<(&str, time::Duration)> = vec![
+        ("1 ns", time::Duration::nanoseconds(1)),
+        ("1 ms", time::Duration::milliseconds(1)),
+        ("2^40 s", time::Duration::seconds(1 << 40)),
+        ("i64::MAX ns", time::Duration::nanoseconds(i64::MAX)),
+        ("i64::MAX s", time::Duration::new(i64::MAX, 0)),
+        ("Duration::MAX", time::Duration::MAX),
+    ];
+    let (mut n, mut waited_forever) = (0u64, 0u64);
+    for (pname, period) in &periods {
+        for burst in 1..=3usize {
+            for per_call in 1..=burst {
+                n += 1;
+                let grants: Arc<Mutex<Vec<(i128, usize)>>> = Default::default();
+                let g2 = grants.clone();
+                let ch = core::Chooser::new(vec![], None);
+                let calls = burst + 4;
+                let period = *period;
+                sched::run(&ch, |idle| async move {
+                    let clock = ctx::ManualClock::new();
+                    let root = ctx::test_root(&clock);
+                    let t0 = root.now();
+                    let lim = limiter::Limiter::new(&root, limiter::Rate { burst, refresh: period });
+                    let (lim, root, clock, idle_ref, g2) = (&lim, &root, &clock, &idle, &g2);
+                    let fut = async move {
+                        scope::run!(root, |ctx, s| async move {
+                            s.spawn_bg(async move {
+                                for _ in 0..calls {
+                                    let p = lim.acquire(ctx, per_call).await?;
+                                    g2.lock().unwrap().push(((ctx.now() - t0).whole_nanoseconds(), per_call));
+                                    drop(p);
+                                }
+                                anyhow::Ok(())
+                            });
+                            for step in 0..12 {
+                                idle_ref.settle().await;
+                                clock.advance(time::Duration::seconds([1, 1_000_000, 1_000_000_000][step % 3]));
+                            }
+                            idle_ref.settle().await;
+                            anyhow::Ok(())
+                        })
+                        .await
+                    };
+                    let _ = sched::drive(&idle, fut, |k| k < 100).await;
+                });
+                let g = grants.lock().unwrap().clone();
+                let r = period.whole_nanoseconds();
+                for i in 0..g.len() {
+                    let mut sum = 0i128;
+                    for j in i..g.len() {
+                        sum += g[j].1 as i128;
+                        let t = g[j].0 - g[i].0;
+                        let bound = burst as i128 + t / r + 1;
+                        if sum > bound {
+                            return (n, waited_forever, Some(format!("limiter with burst {burst} and refresh period {pname}: {sum} permits were granted within a window of {t} ns, at most {bound} allowed; one caller acquiring {per_call} permit(s) {calls} times; grants (time ns, permits): {g:?}")));
+                        }
+                    }
+                }
+                let horizon: i128 = 4 * 1_001_000_001 * 1_000_000_000;
+                let granted: i128 = g.iter().map(|x| x.1 as i128).sum();
+                let due = (burst as i128 + horizon / r).min((calls * per_call) as i128) / per_call as i128 * per_call as i128;
+                if granted + (per_call as i128) <= due - per_call as i128 {
+                    return (n, waited_forever, Some(format!("limiter with burst {burst} and refresh period {pname}: only {granted} permits were granted within {horizon} ns although {due} were due; grants {g:?}")));
+                }
+                if (g.len()) < calls {
+                    waited_forever += 1;
+                }
+            }
+        }
+    }
+    (n, waited_forever, None)
+}
+
 /// Differential scripts for "a cancelled wait consumes nothing": B's grant time with a cancelled
 /// waiter C in between must equal B's grant time without C.
 fn cancel_scripts() -> (u64, Option<String>) {
@@ -309,6 +388,9 @@ pub fn run(args: &Args) -> Report {
         } else if c["kind"] == "rpc" {
             let l = rpc_cfgs[c["index"].as_u64().unwrap_or(0) as usize];
             core::replay_one(&|ch: &Ch| rpc_run(ch, l.0, l.1, l.2), devs_of(rp))
+        } else if c["kind"] == "extreme" {
+            let (_, _, v) = extreme_rates();
+            (ExecResult { violation: v, ..Default::default() }, None)
         } else {
             let (_, v) = cancel_scripts();
             (ExecResult { violation: v, ..Default::default() }, None)
@@ -376,6 +458,12 @@ pub fn run(args: &Args) -> Report {
             rep.violations.push(Violation { key: "infinite_rate".into(), what: "the infinite-rate limiter refused a permit".into(), replay: json!({"harness":"c15-misc"}) });
         }
     }
+    let (nextreme, extreme_waiting, ev) = extreme_rates();
+    if let Some(v) = ev {
+        rep.violations.push(Violation { key: "extreme_rate".into(), what: v, replay: json!({"harness":"c15", "config": {"kind": "extreme"}, "deviations": []}) });
+    } else if extreme_waiting == 0 {
+        rep.machinery_errors.push("vacuous: no extreme-rate configuration ever made a caller wait beyond the horizon".into());
+    }
     let (nscripts, cv) = cancel_scripts();
     if let Some(v) = cv {
         rep.violations.push(Violation { key: "cancel_consumes".into(), what: v, replay: json!({"harness":"c15", "config": {"kind": "cancel"}, "deviations": []}) });
@@ -400,7 +488,7 @@ pub fn run(args: &Args) -> Report {
     rep.coverage = json!({
         "configured_rate_on_a_real_network": net_cov,
         "states": execs, "transitions": points, "traces_validated_against_impl": execs,
-        "evaluations": execs + nscripts, "distinct_nontrivial": distinct,
+        "evaluations": execs + nscripts + nextreme, "distinct_nontrivial": distinct,
         "samples": [
             {"limiter": {"burst": 2, "permits": [1,2,1], "holds": [1,0,2]}, "environment": "clock advanced by r, r/2 or 3r at every quiescent point (choice)"},
             {"rpc": {"burst": 2, "idle_s": 100, "concurrent_calls": 9}},
@@ -408,10 +496,11 @@ pub fn run(args: &Args) -> Report {
         "rule": "a state is one complete execution (schedule + clock steps); limiter drivers: all executions within the deviation bound; cancel scripts: full enumeration of (burst, permits of A/C/B, hold, cancel time) with and without the cancelled waiter; RPC drivers: default schedule (quick) / bound 1 (thorough) of a real Service pair over an in-memory pipe",
         "limiter_deviation_bound": args.tier.pick(3, 5),
         "cancel_scripts": nscripts,
+        "extreme_rate_configurations": nextreme, "extreme_rate_configurations_with_a_caller_still_waiting_at_the_horizon": extreme_waiting,
         "exhaustive": !capped, "capped_by_time_budget": capped,
         "witness_grants_after_waiting": waited, "witness_rpc_handler_starts": starts,
         "explorations": stats,
     });
-    rep.assumptions = vec!["time is the manual clock; the refresh period is 1000 ms in every configuration".into(), "the RPC part runs ~40 internal tasks; only shallow schedule exploration is affordable there".into()];
+    rep.assumptions = vec!["time is the manual clock; the refresh period is 1000 ms in every explored configuration; periods from 1 ns to Duration::MAX only in the sequential extreme-rate part".into(), "the RPC part runs ~40 internal tasks; only shallow schedule exploration is affordable there".into()];
     rep
 }
